@@ -128,7 +128,10 @@ def spaces(tier, seed):
                     continue  # see the undersized space
                 k = rows * 3 + cols * 5 + seed
                 wide = m == "bilateral" and c["sigma_space"] >= 6
-                for lat in ([k % 3] if quick or wide else [k % 3, (k + 1) % 3]):
+                lats = [k % 3] if quick or wide else [k % 3, (k + 1) % 3]
+                if max(rows, cols) > 100 and not wide:
+                    lats = lats + [3]
+                for lat in lats:
                     # memory layout of the caller's arrays (C order / Fortran order / strided view of a larger
                     # array): the same map, so the same result
                     for layout in ([LAYOUTS[(k + lat) % 3]] if quick else [LAYOUTS[(k + lat) % 3], LAYOUTS[(k + lat + 1) % 3]]):
@@ -490,6 +493,17 @@ def lattice(rows, cols, lat):
         return (rr * 5 + cc * 3) % 7 == 0
     if lat == 1:
         return (rr + cc) % 2 == 0
+    if lat == 3:
+        # sparse: a handful of isolated invalid pixels hugging the 50 / 100-pixel block boundaries, every other
+        # block free of invalid pixels (a per-block shortcut "no invalid pixel here" must still see its halo)
+        m = np.zeros((rows, cols), dtype=bool)
+        for b in (49, 50, 51, 99, 100, 101, 149, 150):
+            for k, o in enumerate((7, 40, 73, 120, 170)):
+                if b < rows and o + k < cols:
+                    m[b, o + k] = True
+                if b < cols and o + 2 * k < rows:
+                    m[o + 2 * k, b] = True
+        return m
     m = (rr * 3 + cc * 7) % 11 == 0
     for b in (49, 50, 99, 100, 101, 150):
         m |= (rr == b) & (cc % 3 != 0)
@@ -639,6 +653,13 @@ def run_mfi(case):
         direct = snap(ds)
         check_filter("median_for_intervals", cfg, before, direct, viol, dctx)
         same = all(D.arr_eq(after[k], direct[k]) for k in ("disp", "vm", "conf"))
+        # the filter applied once more on its own output (a pipeline with filter and filter.1): same clauses
+        if case["reg"]:
+            again = ds.copy(deep=True)
+            actx = dctx + ", applied a second time"
+            if _apply("median_for_intervals", {k: v for k, v in cfg.items() if k != "filter_method"}, again,
+                      (rows, cols), viol, actx):
+                check_filter("median_for_intervals", cfg, direct, snap(again), viol, actx)
     if not same:
         viol.append({"clause": "machine-binding", "key": "C10/machine-binding/filter_run/median_for_intervals",
                      "detail": f"{ctx}: the filter step of the machine and the direct call on the same dataset differ"})
